@@ -159,6 +159,8 @@ def units(tier):
     wrap("C03.setup_exchange.capacity_is_the_sum_over_components", BD.unit_setup_exchange_capacity)
     wrap("C03.build_pure_phases.each_element_charged_to_its_own_balance", BD.unit_mineral_elements)
     wrap("C03.model.parked_amounts_given_back_on_every_return", BD.unit_model_inert_bracket)
+    from props import c03_resid_pp as RPP
+    wrap("C03.residuals.PP.row_refuses_convergence_when_supersaturated_or_before_the_first_iteration", RPP.unit_pp_row_convergence)
     from props import c03_tidy as TDY
     wrap("C03.tidy_model.tied_sites_re-proportioned_after_any_redefinition", TDY.unit_update_guards)
     return us
